@@ -879,7 +879,10 @@ class Project:
         try:
             with open(fn_statepoint, "rb") as statepoint_file:
                 statepoint = json.loads(statepoint_file.read().decode())
-                if validate and calc_id(statepoint) != job_id:
+                if validate and (
+                    not isinstance(statepoint, Mapping)
+                    or calc_id(statepoint) != job_id
+                ):
                     raise JobsCorruptedError([job_id])
 
                 return statepoint
